@@ -1548,9 +1548,9 @@ Proof.
   - apply (P7 b G2).
 Qed.
 
-Lemma move_sinv x h v : SInv c x -> TInv c x -> SInv c (move_to_next_leader c wm shut x h v).
+Lemma move_sinv x h v : SInv c x -> SInv c (move_to_next_leader c wm shut x h v).
 Proof.
-  intros I TI. unfold move_to_next_leader.
+  intros I. unfold move_to_next_leader.
   destruct (N.eqb_spec h (t_h (tc_t x))) as [Eh|Eh]; cbn [andb negb]; [|exact I].
   destruct (N.eqb_spec v (tc_v x)) as [Ev|Ev]; cbn [negb]; [|exact I].
   unfold init_view. destruct (N.ltb_spec (wrap64 (v + 1)) (tc_v x)) as [Hw|Hw]; [exact I|].
